@@ -532,6 +532,7 @@ def dist(a, b):
 
 
 F5_SIGNATURE = "alloc-failure-step-length-zero"
+ROTATE_MSC_SIGNATURE = "rotate-small-sintheta-msc-displacement-beyond-true-path"
 
 
 def stream_check(run):
@@ -598,6 +599,15 @@ def stream_check(run):
                 st["max_disp_excess"] = max(st["max_disp_excess"], excess)
                 if excess > 16 * EPS * scale + 4 * EPS * r.step:
                     sig = F5_SIGNATURE if (r.action == fail and r.step == 0) else None
+                    # known defect of rotate() (ArrayUtils.hh) seen through the Urban MSC lateral displacement:
+                    # for a pre-step direction within 0.005 rad of +-z with y < 0 the middle branch drops the
+                    # sign of rot[Y], the "lateral" displacement is then not perpendicular to the step direction
+                    # and the end point lies up to 2*sin(theta)*r_lateral beyond the true path length
+                    if sig is None and msc and r.step > 0:
+                        dz = r.pre.dir[2]
+                        sth = math.sqrt(max(0.0, 1.0 - dz * dz))
+                        if 0 < sth < 0.005 and r.pre.dir[1] < 0 and excess <= 1e-4 * r.step:
+                            sig = ROTATE_MSC_SIGNATURE
                     if not (sig and r.pre.E != 0 and r.step == 0):   # already reported above
                         add("step-shorter-than-displacement",
                             "%s: step length %r < displacement %r" % (name, r.step, d), [r], sig)
